@@ -1,0 +1,17 @@
+//go:build verif
+
+// Verification hook for property C07 (add-only): the names of the registered actions.
+
+package actions
+
+import "sort"
+
+// VerifC07ActionNames returns every key of actionmap.
+func VerifC07ActionNames() []string {
+	names := make([]string, 0, len(actionmap))
+	for k := range actionmap {
+		names = append(names, k)
+	}
+	sort.Strings(names)
+	return names
+}
